@@ -5,17 +5,16 @@ import tempfile
 import time
 import z3
 
-Z3_TIMEOUT_MS = int(os.environ.get("VERIF_Z3_TIMEOUT_MS", "20000"))
+Z3_TIMEOUT_MS = int(os.environ.get("VERIF_Z3_TIMEOUT_MS", "12000"))
 CVC5_TIMEOUT_MS = int(os.environ.get("VERIF_CVC5_TIMEOUT_MS", "20000"))
 CVC5 = "/usr/bin/cvc5"
 Z3_OLD = "/usr/bin/z3"
 
 
 def _seed():
-    try:
-        return int(os.environ.get("VERIF_SEED", "0")) % (2 ** 31)
-    except ValueError:
-        return 0
+    """solver seeds are not part of the explored space: a fixed seed keeps every verdict reproducible whatever VERIF_SEED is
+    (VERIF_SEED only orders / samples cases in the bounded layer); reseeded retries below make verdicts robust anyway"""
+    return 0
 
 
 def _model_dict(m, limit=60):
@@ -84,6 +83,23 @@ def discharge_one(ob, cross=False):
     if ob.expect_sat:
         s.set("timeout", 3000)
     r = s.check()
+    retries = 0
+    if r == z3.unknown and not ob.expect_sat:
+        # quantifier instantiation is seed-sensitive: before giving up on z3, retry with other seeds / instantiation settings
+        # (a verdict, once reached, is a proof; the retries only make the outcome independent of VERIF_SEED and machine load)
+        for seed2, mbqi in ((7, True), (42, True), (1234, False), (99, True)):
+            s2 = z3.Solver()
+            s2.set("timeout", max(4000, Z3_TIMEOUT_MS // 3))
+            s2.set("random_seed", seed2)
+            if not mbqi:
+                s2.set("smt.mbqi", False)
+            s2.add(*ob.hyps)
+            s2.add(neg)
+            retries += 1
+            r = s2.check()
+            if r != z3.unknown:
+                s = s2
+                break
     weak_cover = False
     if ob.expect_sat and r == z3.unknown:
         # sat under quantified hypotheses is rarely decidable: fall back to the quantifier-free hypotheses (weaker vacuity guard, stated)
@@ -94,7 +110,7 @@ def discharge_one(ob, cross=False):
         s2.add(neg)
         r = s2.check()
         weak_cover = True
-    res = dict(name=ob.name, kind=ob.kind, prop=ob.prop, line=ob.line, info=ob.info, backend="z3-%s" % z3.get_version_string())
+    res = dict(name=ob.name, kind=ob.kind, prop=ob.prop, line=ob.line, info=ob.info, backend="z3-%s" % z3.get_version_string() + (" (after %d reseeded retries)" % retries if retries else ""))
     want_unsat = not ob.expect_sat
     verdict = str(r)
     if weak_cover:
